@@ -9,6 +9,9 @@ INTERNAL_NAMES = [
     "State", "Node", "Action", "RuleKind", "Eof", "Eof2", "Quasiterminal", "QuasiterminalKind",
     "NonterminalKind", "ACTION_TABLE", "GOTO_TABLE", "S", "S0", "S2", "R0", "Terminal", "Error",
     "Item", "T", "Node2", "Node3", "State2", "Shift", "Reduce", "Accept", "_1", "__", "A_b", "X9",
+    # shapes of capitals, digits and underscores (what pascal_to_snake_case and the capitalisation rules look at)
+    "HTTPServer", "XMLHttpRequest", "X", "Xy", "XY", "XyZ", "X1", "X1y", "X_y", "X_Y", "Xy_", "X__y", "A1B2", "AbCdEf", "ABCdef", "Zz9",
+    "_X", "_9X", "X9_9", "Ab_Cd", "AB_CD", "A_", "Node_", "State_2",
 ]
 PLAIN_NT = ["Expr", "Term", "Fac", "List", "Opt", "Pair", "Stmt", "Blk"]
 PLAIN_T = ["Num", "Plus", "Star", "LP", "RP", "Id", "Semi", "Eq"]
